@@ -196,6 +196,19 @@ Theorem C10_support_many_calls : forall s (chunks : list (list atom)),
 Proof. exact support_chunks. Qed.
 Print Assumptions C10_support_many_calls.
 
+(* Optimizer._filter_duplicated, through which every random ask goes: whatever the history, EVERY candidate that has not been handed
+   out yet stays a candidate (exactly one copy), and a single ask hands out the first such candidate of the batch - so asks 2, 3, ...
+   draw from the same law as the first one, restricted to the points not handed out yet *)
+Theorem C10_filter_keeps_every_fresh_candidate : forall hist batch x, In x batch -> ~ In x hist ->
+  In x (filter_dup hist batch) /\ NoDup (filter_dup hist batch)
+  /\ hd_error (filter_dup hist batch) = find (fun y => negb (zin y hist)) batch.
+Proof. exact filter_dup_fresh. Qed.
+Print Assumptions C10_filter_keeps_every_fresh_candidate.
+
+Theorem C10_filter_candidates_are_fresh : forall hist batch x, In x (dedup_first hist batch) <-> In x batch /\ ~ In x hist.
+Proof. exact (fun hist batch x => dedup_first_In hist batch x). Qed.
+Print Assumptions C10_filter_candidates_are_fresh.
+
 (* ------------------------------------------------------------------ oracles ------------------------------------------------------------------ *)
 Theorem C10_oracle_conversion : forall decls order dims, ok_conv decls order dims = true <-> ConvSpec decls order dims.
 Proof. exact ok_conv_spec. Qed.
@@ -276,3 +289,7 @@ Example C10_example_cs_point :
   cs_point [3; 1; 2] (fun n => if n =? 2 then Some (SInt (-3) 3 false) else Some (SCats [ABool true; ABool false]))
            [(1, ABool false); (3, AInt 0)] = [Some (AInt 0); Some (ABool false); Some (AInt (-3))].
 Proof. vm_compute. reflexivity. Qed.
+
+(* repeated candidates keep one copy, also with a history (5 occurs three times, 7 was handed out before) *)
+Example C10_example_filter : filter_dup [7] [5; 7; 5; 9; 5; 9; 2] = [5; 9; 2] /\ filter_dup [5; 9] [5; 9; 5] = [5; 9; 5].
+Proof. vm_compute. split; reflexivity. Qed.
